@@ -1,7 +1,9 @@
 /-
-C47 — helper lemmas for the round-trip theorems (core Lean only; no Mathlib needed).
+C47 — helper lemmas for the round-trip theorems (core Lean, plus Mathlib.Data.List.Rotate for the
+rotation algebra behind `Dihedral`).
 -/
 import PorepyVerif.C47.Model
+import Mathlib.Data.List.Rotate
 
 namespace PorepyVerif.C47
 
@@ -333,9 +335,9 @@ theorem finishCore_spec {V : Type} (n : Num V) (near degen : Pt2 V → Pt2 V →
     · exact hnear x hx p hp h)
   have hfst : ((seqEdges 0 (List.replicate fs.length [])).zip ids).map (·.1)
       = seqEdges 0 (List.replicate fs.length []) :=
-    List.map_fst_zip (by rw [seqEdges_length, List.length_replicate, hids]; exact Nat.le_refl _)
+    List.map_fst_zip (by simp only [seqEdges_length, List.length_replicate, hids, Nat.le_refl])
   have hsnd : ((seqEdges 0 (List.replicate fs.length [])).zip ids).map (·.2) = ids :=
-    List.map_snd_zip (by rw [seqEdges_length, List.length_replicate, hids]; exact Nat.le_refl _)
+    List.map_snd_zip (by simp only [seqEdges_length, List.length_replicate, hids, Nat.le_refl])
   have hlook := seqEdges_lookup (List.replicate fs.length []) [] (greedy near [] (endpoints fs)).2
     (by rw [m_length _ fs _ hm, List.length_replicate])
   simp only [List.nil_append, List.length_nil] at hlook
@@ -346,12 +348,12 @@ theorem finishCore_spec {V : Type} (n : Num V) (near degen : Pt2 V → Pt2 V →
     List.filter_eq_self.mpr (fun p hp => pairTag_ne _ fs _ hm hlen p.1 (List.of_mem_zip hp).1)
   have h1 : ((pairTag (greedy near [] (endpoints fs)).2 (List.replicate fs.length [])).zip ids).map (·.1)
       = pairTag (greedy near [] (endpoints fs)).2 (List.replicate fs.length []) :=
-    List.map_fst_zip (by rw [hes, hids]; exact Nat.le_refl _)
+    List.map_fst_zip (by simp only [hes, hids, Nat.le_refl])
   have h2 : ((pairTag (greedy near [] (endpoints fs)).2 (List.replicate fs.length [])).zip ids).map
       (fun p => n.toIdx p.2) = ids.map n.toIdx := by
     rw [← List.map_snd_zip (l₁ := pairTag (greedy near [] (endpoints fs)).2 (List.replicate fs.length []))
-      (l₂ := ids) (by rw [hes, hids]; exact Nat.le_refl _), List.map_map]
-    rw [List.map_snd_zip (by rw [hes, hids]; exact Nat.le_refl _)]
+      (l₂ := ids) (by simp only [hes, hids, Nat.le_refl]), List.map_map]
+    rw [List.map_snd_zip (by simp only [hes, hids, Nat.le_refl])]
     rfl
   simp only [finishCore, hfst, hsnd, hlook, hfilter, h1, h2, mkFrac_pairTag degen _ fs _ hm hdeg]
 
@@ -609,5 +611,696 @@ theorem decode_rowsOf {V F T : Type} (enc : F → V → T) (dec : T → Option V
   | zero => rfl
   | succ k ih =>
     simp only [rowsOf, mapE, decode_heads enc dec rnd hcodec e cols, encCols_tail, ih (tailCols cols)]
+
+
+/-! ### the polyline branch -/
+
+
+theorem mapE_append {α β : Type} (f : α → Except Err β) (l1 l2 : List α) (a b : List β)
+    (h1 : mapE f l1 = .ok a) (h2 : mapE f l2 = .ok b) : mapE f (l1 ++ l2) = .ok (a ++ b) := by
+  induction l1 generalizing a with
+  | nil => simp only [mapE] at h1; cases h1; simpa using h2
+  | cons x xs ih =>
+    simp only [mapE] at h1
+    cases hx : f x with
+    | error e => simp [hx] at h1
+    | ok y =>
+      cases hxs : mapE f xs with
+      | error e => simp [hx, hxs] at h1
+      | ok ys =>
+        simp only [hx, hxs] at h1
+        cases h1
+        simp only [List.cons_append, mapE, hx, ih ys hxs]
+
+theorem mapE_length {α β : Type} (f : α → Except Err β) (l : List α) (r : List β)
+    (h : mapE f l = .ok r) : r.length = l.length := by
+  induction l generalizing r with
+  | nil => simp only [mapE] at h; cases h; rfl
+  | cons x xs ih =>
+    simp only [mapE] at h
+    cases hx : f x with
+    | error e => simp [hx] at h
+    | ok y =>
+      cases hxs : mapE f xs with
+      | error e => simp [hx, hxs] at h
+      | ok ys =>
+        simp only [hx, hxs] at h
+        cases h
+        simp only [List.length_cons, ih ys hxs]
+
+/-! #### decoded rows of a polyline file -/
+
+def polyVals {V : Type} : List (Poly V) → List (List V)
+  | [] => []
+  | P :: Ps => P.pts.map (fun p => [P.id, p.1, p.2]) ++ polyVals Ps
+
+def idCol {V : Type} : List (Poly V) → List V
+  | [] => []
+  | P :: Ps => List.replicate P.pts.length P.id ++ idCol Ps
+
+theorem decode_chain {V T : Type} (c : Codec V T) (n : Num V) (hF : Faithful c n) (v : V)
+    (pts : List (Pt2 V)) :
+    mapE (decodeRow c .decode) ((pts.map (fun p => Line.data [c.enc v, c.enc p.1, c.enc p.2])).filterMap cellsOf)
+      = .ok (pts.map (fun p => [v, p.1, p.2])) := by
+  induction pts with
+  | nil => rfl
+  | cons p ps ih =>
+    have h3 : decodeRow c .decode [c.enc v, c.enc p.1, c.enc p.2] = .ok [v, p.1, p.2] := by
+      simp only [decodeRow, decodeWith, mapE, hF.dec_enc]
+    simp only [List.map_cons, List.filterMap_cons, cellsOf, mapE, h3, ih]
+
+theorem decode_polyRows {V T : Type} (c : Codec V T) (n : Num V) (hF : Faithful c n) (polys : List (Poly V)) :
+    mapE (decodeRow c .decode) ((polyRowsSpec c polys).filterMap cellsOf) = .ok (polyVals polys) := by
+  induction polys with
+  | nil => rfl
+  | cons P Ps ih =>
+    simp only [polyRowsSpec, List.filterMap_append, polyVals]
+    exact mapE_append _ _ _ _ _ (decode_chain c n hF P.id P.pts) ih
+
+theorem polyVals_length {V : Type} (polys : List (Poly V)) : ∀ r ∈ polyVals polys, r.length = 3 := by
+  induction polys with
+  | nil => intro r hr; cases hr
+  | cons P Ps ih =>
+    intro r hr
+    simp only [polyVals, List.mem_append, List.mem_map] at hr
+    rcases hr with ⟨p, _, rfl⟩ | hr
+    · rfl
+    · exact ih r hr
+
+theorem atleast2d_of_len3 {V : Type} (rows : List (List V)) (h : ∀ r ∈ rows, r.length = 3) :
+    atleast2d rows = rows := by
+  match rows, h with
+  | [], _ => rfl
+  | [_], _ => rfl
+  | r :: s :: t, h =>
+    have := h r (List.mem_cons_self)
+    simp only [atleast2d, this]
+    rfl
+
+theorem sel_polyVals {V : Type} (polys : List (Poly V)) :
+    mapE (selRow [1, 2]) (polyVals polys) = .ok ((allPts polys).map (fun p => [p.1, p.2])) := by
+  induction polys with
+  | nil => rfl
+  | cons P Ps ih =>
+    simp only [polyVals, allPts, List.map_append]
+    refine mapE_append _ _ _ _ _ ?_ ih
+    rw [mapE_ok_of_forall (selRow [1, 2]) (fun r => r.drop 1) _ (by
+      intro r hr
+      obtain ⟨p, _, rfl⟩ := List.mem_map.mp hr
+      rfl)]
+    simp only [List.map_map]
+    rfl
+
+theorem pairUp_pts {V : Type} (pts : List (Pt2 V)) :
+    pairUp (pts.map (fun p => [p.1, p.2])).flatten = .ok pts := by
+  induction pts with
+  | nil => rfl
+  | cons p ps ih => simp only [List.map_cons, List.flatten_cons, List.cons_append, List.nil_append, pairUp, ih]
+
+theorem heads_polyVals {V : Type} (d : V) (polys : List (Poly V)) :
+    (polyVals polys).map (fun r => r.headD d) = idCol polys := by
+  induction polys with
+  | nil => rfl
+  | cons P Ps ih =>
+    simp only [polyVals, List.map_append, List.map_map, idCol, ih]
+    congr 1
+    induction P.pts with
+    | nil => rfl
+    | cons p ps ih2 => simp only [List.map_cons, Function.comp, List.headD_cons, List.length_cons,
+        List.replicate_succ, ih2]
+
+
+
+
+/-- index pairs (s,s+1),(s+1,s+2),… : `c` of them -/
+def chainEdges : Nat → Nat → List (Nat × Nat × List Int)
+  | _, 0 => []
+  | s, c + 1 => (s, s + 1, []) :: chainEdges (s + 1) c
+
+/-- what the polyline branch computes for the edges: per polyline a chain, tagged with its id -/
+def polyEdgesSpec {V : Type} : Nat → List (Poly V) → List ((Nat × Nat × List Int) × V)
+  | _, [] => []
+  | s, P :: Ps => (chainEdges s (P.pts.length - 1)).map (fun e => (e, P.id)) ++ polyEdgesSpec (s + P.pts.length) Ps
+
+theorem range_chain (c s : Nat) :
+    (List.range c).map (fun d => ((s + d, s + 1 + d, []) : Nat × Nat × List Int)) = chainEdges s c := by
+  induction c generalizing s with
+  | zero => rfl
+  | succ c ih =>
+    rw [List.range_succ_eq_map]
+    simp only [List.map_cons, List.map_map, chainEdges, Nat.add_zero]
+    congr 1
+    rw [← ih (s + 1)]
+    apply List.map_congr_left
+    intro d _
+    simp only [Function.comp]
+    have h1 : s + d.succ = s + 1 + d := by omega
+    have h2 : s + 1 + d.succ = s + 1 + 1 + d := by omega
+    rw [h1, h2]
+
+theorem mem_idCol {V : Type} (polys : List (Poly V)) (x : V) (h : x ∈ idCol polys) :
+    ∃ P ∈ polys, x = P.id := by
+  induction polys with
+  | nil => cases h
+  | cons P Ps ih =>
+    simp only [idCol, List.mem_append, List.mem_replicate] at h
+    rcases h with ⟨_, rfl⟩ | h
+    · exact ⟨P, List.mem_cons_self, rfl⟩
+    · obtain ⟨Q, hQ, rfl⟩ := ih h
+      exact ⟨Q, List.mem_cons_of_mem _ hQ, rfl⟩
+
+theorem idCol_append {V : Type} (l1 l2 : List (Poly V)) : idCol (l1 ++ l2) = idCol l1 ++ idCol l2 := by
+  induction l1 with
+  | nil => rfl
+  | cons P Ps ih => simp only [List.cons_append, idCol, ih, List.append_assoc]
+
+theorem idCol_length {V : Type} (polys : List (Poly V)) : (idCol polys).length = (allPts polys).length := by
+  induction polys with
+  | nil => rfl
+  | cons P Ps ih => simp only [idCol, allPts, List.length_append, List.length_replicate, ih]
+
+section
+variable {V : Type} [DecidableEq V]
+
+theorem positions_append (v : V) (l1 l2 : List V) (k : Nat) :
+    positions v (l1 ++ l2) k = positions v l1 k ++ positions v l2 (k + l1.length) := by
+  induction l1 generalizing k with
+  | nil => rfl
+  | cons a l ih =>
+    simp only [List.cons_append, positions, ih (k + 1), List.length_cons]
+    have : k + 1 + l.length = k + (l.length + 1) := by omega
+    by_cases h : a = v <;> simp [h, this]
+
+theorem positions_replicate (v : V) (L k : Nat) : positions v (List.replicate L v) k = List.range' k L := by
+  induction L generalizing k with
+  | zero => rfl
+  | succ L ih => simp only [List.replicate_succ, positions, if_true, ih (k + 1), List.range'_succ]
+
+theorem positions_notmem (v : V) (l : List V) (k : Nat) (h : v ∉ l) : positions v l k = [] := by
+  induction l generalizing k with
+  | nil => rfl
+  | cons a l ih =>
+    have ha : a ≠ v := fun e => h (e ▸ List.mem_cons_self)
+    simp only [positions, ha, if_false, ih (k + 1) (fun hm => h (List.mem_cons_of_mem _ hm))]
+
+theorem uniqueSorted_block (n : Num V) (v : V) (L : Nat) (hL : 1 ≤ L) (Ps : List (Poly V))
+    (ih : uniqueSorted n (idCol Ps) = Ps.map (·.id))
+    (hv : ∀ Q ∈ Ps, v ≠ Q.id ∧ n.lt v Q.id = true) :
+    uniqueSorted n (List.replicate L v ++ idCol Ps) = v :: Ps.map (·.id) := by
+  induction L with
+  | zero => omega
+  | succ L ihL =>
+    simp only [List.replicate_succ, List.cons_append, uniqueSorted]
+    cases L with
+    | zero =>
+      simp only [List.replicate_zero, List.nil_append, ih]
+      cases Ps with
+      | nil => rfl
+      | cons Q Qs =>
+        have := hv Q (List.mem_cons_self)
+        simp only [List.map_cons, insertU, this.1, if_false, this.2, if_true]
+    | succ L' =>
+      rw [ihL (by omega)]
+      simp only [insertU, if_true]
+
+theorem uniqueSorted_idCol (n : Num V) (polys : List (Poly V)) (hlen : ∀ P ∈ polys, 2 ≤ P.pts.length)
+    (hids : polys.Pairwise (fun a b => a.id ≠ b.id ∧ n.lt a.id b.id = true)) :
+    uniqueSorted n (idCol polys) = polys.map (·.id) := by
+  induction polys with
+  | nil => rfl
+  | cons P Ps ih =>
+    have hp := List.pairwise_cons.mp hids
+    simp only [idCol, List.map_cons]
+    exact uniqueSorted_block n P.id P.pts.length (by have := hlen P List.mem_cons_self; omega) Ps
+      (ih (fun Q hQ => hlen Q (List.mem_cons_of_mem _ hQ)) hp.2) hp.1
+
+end
+
+theorem polyBlock_range' {V : Type} (fi : V) (s L : Nat) (hL : 2 ≤ L) :
+    polyBlock fi (List.range' s L) = .ok ((chainEdges s (L - 1)).map (fun e => (e, fi))) := by
+  match L, hL with
+  | 2, _ =>
+    simp only [List.range'_succ, List.range'_zero, polyBlock]
+    rfl
+  | L + 3, _ =>
+    have hlast : ((s + 1) :: List.range' (s + 1 + 1) (L + 1)).getLast?.getD (s + 1) = s + L + 2 := by
+      rw [← List.range'_succ, List.getLast?_range']
+      simp
+      omega
+    simp only [List.range'_succ, polyBlock] at hlast ⊢
+    rw [hlast]
+    have : s + L + 2 - s = s + L + 2 + 1 - (s + 1) := by omega
+    simp only [this, if_true]
+    have h2 : s + L + 2 + 1 - (s + 1) = L + 3 - 1 := by omega
+    rw [h2, ← range_chain, List.map_map]
+    rfl
+
+def blocks {V : Type} : Nat → List (Poly V) → List (List ((Nat × Nat × List Int) × V))
+  | _, [] => []
+  | s, P :: Ps => (chainEdges s (P.pts.length - 1)).map (fun e => (e, P.id)) :: blocks (s + P.pts.length) Ps
+
+theorem blocks_flatten {V : Type} (s : Nat) (polys : List (Poly V)) :
+    (blocks s polys).flatten = polyEdgesSpec s polys := by
+  induction polys generalizing s with
+  | nil => rfl
+  | cons P Ps ih => simp only [blocks, List.flatten_cons, polyEdgesSpec, ih]
+
+theorem polyBlocks {V : Type} [DecidableEq V] (pre rest : List (Poly V))
+    (hlen : ∀ P ∈ rest, 2 ≤ P.pts.length)
+    (hpre : ∀ Q ∈ pre, ∀ R ∈ rest, Q.id ≠ R.id)
+    (hrest : rest.Pairwise (fun a b => a.id ≠ b.id)) :
+    mapE (fun fi => polyBlock fi (positions fi (idCol pre ++ idCol rest) 0)) (rest.map (·.id))
+      = .ok (blocks (idCol pre).length rest) := by
+  induction rest generalizing pre with
+  | nil => rfl
+  | cons P Ps ih =>
+    have hp := List.pairwise_cons.mp hrest
+    have h1 : P.id ∉ idCol pre := by
+      intro hm
+      obtain ⟨Q, hQ, he⟩ := mem_idCol pre _ hm
+      exact hpre Q hQ P List.mem_cons_self he.symm
+    have h2 : P.id ∉ idCol Ps := by
+      intro hm
+      obtain ⟨Q, hQ, he⟩ := mem_idCol Ps _ hm
+      exact hp.1 Q hQ he
+    have hpos : positions P.id (idCol pre ++ idCol (P :: Ps)) 0
+        = List.range' (idCol pre).length P.pts.length := by
+      simp only [idCol, positions_append, positions_notmem _ _ _ h1, positions_notmem _ _ _ h2,
+        positions_replicate, List.nil_append, List.append_nil, Nat.zero_add]
+    have hre : idCol pre ++ idCol (P :: Ps) = idCol (pre ++ [P]) ++ idCol Ps := by
+      simp only [idCol_append, idCol, List.append_nil, List.append_assoc]
+    have hl : (idCol (pre ++ [P])).length = (idCol pre).length + P.pts.length := by
+      simp only [idCol_append, idCol, List.append_nil, List.length_append, List.length_replicate]
+    have ih' := ih (pre ++ [P]) (fun Q hQ => hlen Q (List.mem_cons_of_mem _ hQ))
+      (fun Q hQ R hR => by
+        rcases List.mem_append.mp hQ with h | h
+        · exact hpre Q h R (List.mem_cons_of_mem _ hR)
+        · simp only [List.mem_singleton] at h
+          subst h
+          exact hp.1 R hR) hp.2
+    rw [← hre, hl] at ih'
+    simp only [List.map_cons, mapE, hpos, polyBlock_range' P.id _ _ (hlen P List.mem_cons_self), ih', blocks]
+
+theorem polyEdges_spec {V : Type} [DecidableEq V] (n : Num V) (polys : List (Poly V))
+    (hlen : ∀ P ∈ polys, 2 ≤ P.pts.length)
+    (hids : polys.Pairwise (fun a b => a.id ≠ b.id ∧ n.lt a.id b.id = true)) :
+    polyEdges n (idCol polys) = .ok (polyEdgesSpec 0 polys) := by
+  have hb := polyBlocks [] polys hlen (fun Q hQ => by cases hQ) (hids.imp (fun h => h.1))
+  simp only [idCol, List.nil_append, List.length_nil] at hb
+  simp only [polyEdges, uniqueSorted_idCol n polys hlen hids, hb, blocks_flatten]
+
+
+
+/-- consecutive index pairs -/
+def consec : List Nat → List (Nat × Nat × List Int)
+  | i :: j :: r => (i, j, []) :: consec (j :: r)
+  | _ => []
+
+def polyPairs {V : Type} : List (Poly V) → List Nat → List (Nat × Nat × List Int)
+  | [], _ => []
+  | P :: Ps, m => consec (m.take P.pts.length) ++ polyPairs Ps (m.drop P.pts.length)
+
+theorem chain_lookup (mc pre post : List Nat) :
+    mapE (lookupEdge (pre ++ mc ++ post)) (chainEdges pre.length (mc.length - 1)) = .ok (consec mc) := by
+  induction mc generalizing pre with
+  | nil => rfl
+  | cons i r ih =>
+    cases r with
+    | nil => rfl
+    | cons j r =>
+      have h1 : (pre ++ i :: j :: r ++ post)[pre.length]? = some i := by simp
+      have h2 : (pre ++ i :: j :: r ++ post)[pre.length + 1]? = some j := by
+        rw [List.append_assoc, List.getElem?_append_right (Nat.le_add_right _ _)]
+        simp
+      have h3 : pre ++ i :: j :: r ++ post = (pre ++ [i]) ++ (j :: r) ++ post := by simp
+      have h4 : pre.length + 1 = (pre ++ [i]).length := by simp
+      have := ih (pre ++ [i])
+      rw [← h3, ← h4] at this
+      simp only [List.length_cons, Nat.add_sub_cancel, chainEdges, mapE, lookupEdge, getE, h1, h2, consec]
+      simp only [List.length_cons, Nat.add_sub_cancel] at this
+      rw [this]
+
+theorem edges_fst {V : Type} (s : Nat) (polys : List (Poly V)) :
+    (polyEdgesSpec s polys).map (·.1) = match polys with
+      | [] => []
+      | P :: Ps => chainEdges s (P.pts.length - 1) ++ (polyEdgesSpec (s + P.pts.length) Ps).map (·.1) := by
+  cases polys with
+  | nil => rfl
+  | cons P Ps =>
+    have : ((fun x : (Nat × Nat × List Int) × V => x.fst) ∘ fun e => (e, P.id)) = id := rfl
+    simp only [polyEdgesSpec, List.map_append, List.map_map, this, List.map_id]
+
+theorem poly_lookup {V : Type} (polys : List (Poly V)) (pre m' : List Nat)
+    (hl : m'.length = (allPts polys).length) :
+    mapE (lookupEdge (pre ++ m')) ((polyEdgesSpec pre.length polys).map (·.1)) = .ok (polyPairs polys m') := by
+  induction polys generalizing pre m' with
+  | nil => rfl
+  | cons P Ps ih =>
+    rw [edges_fst]
+    simp only [allPts, List.length_append] at hl
+    have htl : (m'.take P.pts.length).length = P.pts.length := by
+      rw [List.length_take]; omega
+    have hc := chain_lookup (m'.take P.pts.length) pre (m'.drop P.pts.length)
+    rw [List.append_assoc, List.take_append_drop, htl] at hc
+    have hi := ih (pre ++ m'.take P.pts.length) (m'.drop P.pts.length) (by rw [List.length_drop]; omega)
+    rw [List.append_assoc, List.take_append_drop, List.length_append, htl] at hi
+    exact mapE_append _ _ _ _ _ hc hi
+
+theorem chain_ne {V : Type} (U : List (Pt2 V)) (chain : List (Pt2 V)) (mc : List Nat)
+    (hm : mc.map (fun i => U[i]?) = chain.map some) (hseg : ∀ f ∈ segs chain, f.a ≠ f.b) :
+    ∀ e ∈ consec mc, (e.1 != e.2.1) = true := by
+  induction chain generalizing mc with
+  | nil =>
+    simp only [List.map_nil, List.map_eq_nil_iff] at hm
+    subst hm; intro e he; cases he
+  | cons p r ih =>
+    cases r with
+    | nil =>
+      match mc, hm with
+      | [i], _ => intro e he; cases he
+      | [], hm => simp at hm
+      | _ :: _ :: _, hm => simp at hm
+    | cons q r =>
+      match mc, hm with
+      | i :: j :: mr, hm =>
+        simp only [List.map_cons, List.cons.injEq] at hm
+        obtain ⟨hi, hj, hr⟩ := hm
+        intro e he
+        simp only [consec, List.mem_cons] at he
+        rcases he with rfl | he
+        · simp only [bne_iff_ne, ne_eq]
+          intro hij
+          subst hij
+          rw [hi] at hj
+          exact hseg ⟨p, q, []⟩ (by simp [segs]) (Option.some.inj hj)
+        · exact ih (j :: mr) (by simp only [List.map_cons, hj, hr])
+            (fun f hf => hseg f (by simp only [segs, List.mem_cons]; exact Or.inr hf)) e he
+      | [], hm => simp at hm
+      | [_], hm => simp at hm
+
+theorem chain_mk {V : Type} (degen : Pt2 V → Pt2 V → Bool) (U : List (Pt2 V)) (chain : List (Pt2 V))
+    (mc : List Nat) (hm : mc.map (fun i => U[i]?) = chain.map some)
+    (hseg : ∀ f ∈ segs chain, degen f.a f.b = false) :
+    mapE (mkFrac degen U) (consec mc) = .ok (segs chain) := by
+  induction chain generalizing mc with
+  | nil =>
+    simp only [List.map_nil, List.map_eq_nil_iff] at hm
+    subst hm; rfl
+  | cons p r ih =>
+    cases r with
+    | nil =>
+      match mc, hm with
+      | [i], _ => rfl
+      | [], hm => simp at hm
+      | _ :: _ :: _, hm => simp at hm
+    | cons q r =>
+      match mc, hm with
+      | i :: j :: mr, hm =>
+        simp only [List.map_cons, List.cons.injEq] at hm
+        obtain ⟨hi, hj, hr⟩ := hm
+        have hd := hseg ⟨p, q, []⟩ (by simp [segs])
+        have := ih (j :: mr) (by simp only [List.map_cons, hj, hr])
+          (fun f hf => hseg f (by simp only [segs, List.mem_cons]; exact Or.inr hf))
+        simp only [consec, mapE, mkFrac, getE, hi, hj, hd, this, segs]
+        rfl
+      | [], hm => simp at hm
+      | [_], hm => simp at hm
+
+theorem split_map {V : Type} (U : List (Pt2 V)) (a b : List (Pt2 V)) (m : List Nat)
+    (hm : m.map (fun i => U[i]?) = (a ++ b).map some) :
+    (m.take a.length).map (fun i => U[i]?) = a.map some ∧ (m.drop a.length).map (fun i => U[i]?) = b.map some := by
+  constructor
+  · rw [List.map_take, hm, List.map_append, List.take_left' (by simp)]
+  · rw [List.map_drop, hm, List.map_append, List.drop_left' (by simp)]
+
+theorem poly_ne {V : Type} (U : List (Pt2 V)) (polys : List (Poly V)) (m : List Nat)
+    (hm : m.map (fun i => U[i]?) = (allPts polys).map some) (hseg : ∀ f ∈ polySegs polys, f.a ≠ f.b) :
+    ∀ e ∈ polyPairs polys m, (e.1 != e.2.1) = true := by
+  induction polys generalizing m with
+  | nil => intro e he; cases he
+  | cons P Ps ih =>
+    obtain ⟨h1, h2⟩ := split_map U P.pts (allPts Ps) m hm
+    intro e he
+    simp only [polyPairs, List.mem_append] at he
+    rcases he with he | he
+    · exact chain_ne U P.pts _ h1 (fun f hf => hseg f (by simp only [polySegs, List.mem_append]; exact Or.inl hf)) e he
+    · exact ih _ h2 (fun f hf => hseg f (by simp only [polySegs, List.mem_append]; exact Or.inr hf)) e he
+
+theorem poly_mk {V : Type} (degen : Pt2 V → Pt2 V → Bool) (U : List (Pt2 V)) (polys : List (Poly V))
+    (m : List Nat) (hm : m.map (fun i => U[i]?) = (allPts polys).map some)
+    (hseg : ∀ f ∈ polySegs polys, degen f.a f.b = false) :
+    mapE (mkFrac degen U) (polyPairs polys m) = .ok (polySegs polys) := by
+  induction polys generalizing m with
+  | nil => rfl
+  | cons P Ps ih =>
+    obtain ⟨h1, h2⟩ := split_map U P.pts (allPts Ps) m hm
+    exact mapE_append _ _ _ _ _
+      (chain_mk degen U P.pts _ h1 (fun f hf => hseg f (by simp only [polySegs, List.mem_append]; exact Or.inl hf)))
+      (ih _ h2 (fun f hf => hseg f (by simp only [polySegs, List.mem_append]; exact Or.inr hf)))
+
+theorem chainEdges_length (s c : Nat) : (chainEdges s c).length = c := by
+  induction c generalizing s with
+  | zero => rfl
+  | succ c ih => simp only [chainEdges, List.length_cons, ih]
+
+theorem edges_snd_toIdx {V : Type} (n : Num V) (s : Nat) (polys : List (Poly V)) :
+    ((polyEdgesSpec s polys).map (·.2)).map n.toIdx = polyIds n polys := by
+  induction polys generalizing s with
+  | nil => rfl
+  | cons P Ps ih =>
+    simp only [polyEdgesSpec, List.map_append, List.map_map, polyIds, ih]
+    congr 1
+    rw [List.eq_replicate_iff]
+    constructor
+    · simp only [List.length_map, chainEdges_length]
+    · intro b hb
+      simp only [List.mem_map, Function.comp] at hb
+      obtain ⟨_, _, rfl⟩ := hb
+      rfl
+
+
+
+
+theorem allPts_length_pos {V : Type} (P : Poly V) (Ps : List (Poly V)) (h : 2 ≤ P.pts.length) :
+    ∃ p r, allPts (P :: Ps) = p :: r := by
+  cases hp : P.pts with
+  | nil => rw [hp] at h; simp at h
+  | cons p r => exact ⟨p, r ++ allPts Ps, by simp only [allPts, hp, List.cons_append]⟩
+
+theorem finishCore_poly {V : Type} (n : Num V) (near degen : Pt2 V → Pt2 V → Bool) (d : Box2 V)
+    (polys : List (Poly V))
+    (hnear : ∀ p ∈ allPts polys, ∀ q ∈ allPts polys, near p q = true → p = q)
+    (hseg : ∀ f ∈ polySegs polys, f.a ≠ f.b ∧ degen f.a f.b = false) :
+    finishCore n near degen d (allPts polys) (polyEdgesSpec 0 polys)
+      = .ok ⟨polySegs polys, some d, polyIds n polys⟩ := by
+  have hm := greedy_lookup near (allPts polys) [] (fun x hx p hp h => by
+    rcases hx with hx | hx
+    · cases hx
+    · exact hnear x hx p hp h)
+  have hml : (greedy near [] (allPts polys)).2.length = (allPts polys).length := by
+    have := congrArg List.length hm
+    simpa using this
+  have hlook := poly_lookup polys [] (greedy near [] (allPts polys)).2 hml
+  simp only [List.nil_append, List.length_nil] at hlook
+  have hlen := mapE_length _ _ _ hlook
+  have hfilter : ((polyPairs polys (greedy near [] (allPts polys)).2).zip ((polyEdgesSpec 0 polys).map (·.2))).filter
+      (fun p => p.1.1 != p.1.2.1)
+      = (polyPairs polys (greedy near [] (allPts polys)).2).zip ((polyEdgesSpec 0 polys).map (·.2)) :=
+    List.filter_eq_self.mpr (fun p hp =>
+      poly_ne _ polys _ hm (fun f hf => (hseg f hf).1) p.1 (List.of_mem_zip hp).1)
+  have h1 : ((polyPairs polys (greedy near [] (allPts polys)).2).zip ((polyEdgesSpec 0 polys).map (·.2))).map (·.1)
+      = polyPairs polys (greedy near [] (allPts polys)).2 :=
+    List.map_fst_zip (by rw [hlen]; simp)
+  have h2 : ((polyPairs polys (greedy near [] (allPts polys)).2).zip ((polyEdgesSpec 0 polys).map (·.2))).map
+      (fun p => n.toIdx p.2) = polyIds n polys := by
+    rw [← edges_snd_toIdx n 0 polys]
+    rw [← List.map_snd_zip (l₁ := polyPairs polys (greedy near [] (allPts polys)).2)
+      (l₂ := (polyEdgesSpec 0 polys).map (·.2)) (by rw [hlen]; simp), List.map_map]
+    rw [List.map_snd_zip (by rw [hlen]; simp)]
+    rfl
+  simp only [finishCore, hlook, hfilter, h1, h2,
+    poly_mk degen _ polys _ hm (fun f hf => (hseg f hf).2)]
+
+theorem read2dRows_poly {V : Type} [DecidableEq V] (n : Num V) (near degen : Pt2 V → Pt2 V → Bool)
+    (polys : List (Poly V)) (hne : polys ≠ []) (skip : Nat) (dom : Option (Box2 V))
+    (hlen : ∀ P ∈ polys, 2 ≤ P.pts.length)
+    (hids : polys.Pairwise (fun a b => a.id ≠ b.id ∧ n.lt a.id b.id = true))
+    (hnear : ∀ p ∈ allPts polys, ∀ q ∈ allPts polys, near p q = true → p = q)
+    (hseg : ∀ f ∈ polySegs polys, f.a ≠ f.b ∧ degen f.a f.b = false) :
+    read2dRows n near degen (polyVals polys) ⟨skip, none, none, true, dom⟩
+      = .ok ⟨polySegs polys, domOr n dom (allPts polys), polyIds n polys⟩ := by
+  cases polys with
+  | nil => exact absurd rfl hne
+  | cons P Ps =>
+    have hP := hlen P List.mem_cons_self
+    obtain ⟨p, r, hpr⟩ := allPts_length_pos P Ps hP
+    have hhead : ((polyVals (P :: Ps)).head?.map List.length).getD 0 = 3 := by
+      cases hp : P.pts with
+      | nil => rw [hp] at hP; simp at hP
+      | cons q t => simp [polyVals, hp]
+    have hcols : ptCols 3 none = [1, 2] := by decide
+    have hd : ∃ d, domOr n dom (allPts (P :: Ps)) = some d := by
+      rw [hpr]
+      cases dom with
+      | some d => exact ⟨d, rfl⟩
+      | none => exact ⟨_, rfl⟩
+    obtain ⟨d, hd⟩ := hd
+    simp only [read2dRows, hhead, hcols, sel_polyVals, pairUp_pts, heads_polyVals, if_true,
+      polyEdges_spec n (P :: Ps) hlen hids, finish2, hd,
+      finishCore_poly n near degen d (P :: Ps) hnear hseg]
+
+
+
+/-! ### vertex cycles: dihedral symmetry and the angular sort -/
+
+
+theorem rot_eq_rotate {α : Type} (k : Nat) (l : List α) : rot k l = l.rotate k := by
+  rw [rot, List.rotate_eq_drop_append_take_mod]
+
+theorem dihedral_iff {α : Type} (g f : List α) : Dihedral g f ↔ (f ~r g ∨ f ~r g.reverse) := by
+  constructor
+  · rintro ⟨k, h | h⟩
+    · exact Or.inl ⟨k, by rw [h, rot_eq_rotate]⟩
+    · exact Or.inr ⟨k, by rw [h, rot_eq_rotate, List.reverse_reverse]⟩
+  · rintro (⟨k, h⟩ | ⟨k, h⟩)
+    · exact ⟨k, Or.inl (by rw [rot_eq_rotate, h])⟩
+    · exact ⟨k, Or.inr (by rw [rot_eq_rotate, h, List.reverse_reverse])⟩
+
+theorem dihedral_refl {α : Type} (f : List α) : Dihedral f f :=
+  (dihedral_iff f f).mpr (Or.inl (List.IsRotated.refl f))
+
+theorem dihedral_symm {α : Type} {g f : List α} (h : Dihedral g f) : Dihedral f g := by
+  rw [dihedral_iff] at h ⊢
+  rcases h with h | h
+  · exact Or.inl h.symm
+  · refine Or.inr ?_
+    have := h.symm.reverse
+    rwa [List.reverse_reverse] at this
+
+theorem dihedral_trans {α : Type} {h g f : List α} (h1 : Dihedral h g) (h2 : Dihedral g f) : Dihedral h f := by
+  rw [dihedral_iff] at h1 h2 ⊢
+  rcases h1 with h1 | h1 <;> rcases h2 with h2 | h2
+  · exact Or.inl (h2.trans h1)
+  · refine Or.inr ?_
+    exact h2.trans h1.reverse
+  · exact Or.inr (h2.trans h1)
+  · refine Or.inl ?_
+    have := h1.reverse
+    rw [List.reverse_reverse] at this
+    exact h2.trans this
+
+theorem dihedral_perm {α : Type} {g f : List α} (h : Dihedral g f) : g.Perm f := by
+  rw [dihedral_iff] at h
+  rcases h with h | h
+  · exact h.perm.symm
+  · exact ((List.reverse_perm g).symm.trans h.perm.symm)
+
+/-! angular sort -/
+
+theorem insertBy_perm {P : Type} (θ : P → Rat) (p : P) (l : List P) : (insertBy θ p l).Perm (p :: l) := by
+  induction l with
+  | nil => exact List.Perm.refl _
+  | cons a l ih =>
+    simp only [insertBy]
+    split
+    · exact (List.Perm.cons a ih).trans (List.Perm.swap p a l)
+    · exact List.Perm.refl _
+
+theorem angSort_perm {P : Type} (θ : P → Rat) (l : List P) : (angSort θ l).Perm l := by
+  induction l with
+  | nil => exact List.Perm.refl _
+  | cons p l ih => exact (insertBy_perm θ p _).trans (List.Perm.cons p ih)
+
+theorem insertBy_sorted {P : Type} (θ : P → Rat) (p : P) (l : List P) (hs : StrictAsc θ l)
+    (hne : ∀ x ∈ l, θ x ≠ θ p) : StrictAsc θ (insertBy θ p l) := by
+  induction l with
+  | nil => exact List.pairwise_singleton _ _
+  | cons a l ih =>
+    have hp := List.pairwise_cons.mp hs
+    simp only [insertBy]
+    split
+    · rename_i hlt
+      refine List.pairwise_cons.mpr ⟨?_, ih hp.2 (fun x hx => hne x (List.mem_cons_of_mem _ hx))⟩
+      intro y hy
+      rcases List.mem_cons.mp ((insertBy_perm θ p l).mem_iff.mp hy) with rfl | hy
+      · exact hlt
+      · exact hp.1 y hy
+    · rename_i hnlt
+      have hpa : θ p < θ a := by
+        have := hne a List.mem_cons_self
+        grind
+      refine List.pairwise_cons.mpr ⟨?_, hs⟩
+      intro y hy
+      rcases List.mem_cons.mp hy with rfl | hy
+      · exact hpa
+      · have := hp.1 y hy
+        grind
+
+theorem angSort_sorted {P : Type} (θ : P → Rat) (l : List P) (hinj : l.Pairwise (fun x y => θ x ≠ θ y)) :
+    StrictAsc θ (angSort θ l) := by
+  induction l with
+  | nil => exact List.Pairwise.nil
+  | cons p l ih =>
+    have hp := List.pairwise_cons.mp hinj
+    exact insertBy_sorted θ p _ (ih hp.2) (fun x hx => (hp.1 x ((angSort_perm θ l).mem_iff.mp hx)).symm)
+
+theorem eq_of_perm_of_strictAsc {P : Type} (θ : P → Rat) (l1 l2 : List P) (hp : l1.Perm l2)
+    (h1 : StrictAsc θ l1) (h2 : StrictAsc θ l2) : l1 = l2 := by
+  induction l1 generalizing l2 with
+  | nil => exact (List.Perm.nil_eq hp)
+  | cons x t ih =>
+    cases l2 with
+    | nil => exact absurd hp.eq_nil (List.cons_ne_nil _ _)
+    | cons y t2 =>
+      have p1 := List.pairwise_cons.mp h1
+      have p2 := List.pairwise_cons.mp h2
+      have hxy : x = y := by
+        by_contra hne
+        have hx2 : x ∈ t2 := by
+          rcases List.mem_cons.mp (hp.mem_iff.mp List.mem_cons_self) with h | h
+          · exact absurd h hne
+          · exact h
+        have hy1 : y ∈ t := by
+          rcases List.mem_cons.mp (hp.mem_iff.mpr List.mem_cons_self) with h | h
+          · exact absurd h.symm hne
+          · exact h
+        have a := p2.1 x hx2
+        have b := p1.1 y hy1
+        grind
+      subst hxy
+      rw [ih t2 ((List.perm_cons x).mp hp) p1.2 p2.2]
+
+theorem angSort_eq_of_perm {P : Type} (θ : P → Rat) (f a : List P) (hp : f.Perm a) (ha : StrictAsc θ a) :
+    angSort θ f = a := by
+  have hne_a : a.Pairwise (fun x y => θ x ≠ θ y) := ha.imp (fun h => by grind)
+  have hne_f : f.Pairwise (fun x y => θ x ≠ θ y) :=
+    (List.Perm.pairwise_iff (fun h => Ne.symm h) hp).mpr hne_a
+  exact eq_of_perm_of_strictAsc θ _ _ ((angSort_perm θ f).trans hp) (angSort_sorted θ f hne_f) ha
+
+
+
+/-! ### elliptic 3-D files -/
+
+
+theorem readFracsE_rows {V T : Type} (c : Codec V T) (n : Num V) (hF : Faithful c n)
+    (mk : List V → Except Err (List (Pt3 V))) (params : List (List V))
+    (h9 : ∀ p ∈ params, p.length = 9) :
+    readFracsE c mk (params.map (fun p => Line.data (p.map c.enc))) = mapE mk params := by
+  induction params with
+  | nil => rfl
+  | cons p ps ih =>
+    have ih' := ih (fun q hq => h9 q (List.mem_cons_of_mem _ hq))
+    have hp := h9 p List.mem_cons_self
+    have hdec := decodeRow_map_enc c n hF .value p
+    match p, hp, hdec with
+    | x :: xs, hp, hdec =>
+      have hmod : ((x :: xs).length % 9 != 0) = false := by rw [hp]; rfl
+      have htake : (x :: xs).take 9 = x :: xs := by rw [← hp]; exact List.take_length
+      simp only [List.map_cons] at hdec
+      simp only [List.map_cons, readFracsE, hdec, hmod, htake, ih', mapE, Bool.false_eq_true, if_false]
+      cases mk (x :: xs) with
+      | error e => rfl
+      | ok b => cases mapE mk ps <;> rfl
+
 
 end PorepyVerif.C47
